@@ -202,3 +202,33 @@ Proof.
     constructor; [apply sem_ex_foo | constructor].
   - eexists. split; [vm_compute; reflexivity | vm_compute; reflexivity].
 Qed.
+
+(** * The property as ONE theorem, clause by clause
+
+    "A 'template uses non-existent label' report is never a false positive":
+    (1) every series Prometheus returns for a query is consistent with at least one of the result branches pint derived
+        for it (it carries no label that branch cannot have);
+    (2) hence for a single-branch query every label the check reports as impossible is carried by NO series of any
+        result, on every database -- the reported Bug is true;
+    (3) on expressions without constant vectors ([novc]) the consistent branch of (1) is moreover LIVE (not marked dead),
+        so a multi-branch query is only reported for a label that a live branch cannot have, and every returned series
+        belongs to some live branch the check looked at (outside [novc] the refinement fails: [C04_live_refuted], the
+        liveness classes K1 K2 K6 K7 of C12). *)
+Theorem C04_property : forall fmod fpow db e R,
+  wf e = true -> Sem db e (RVec R) ->
+  (* (1) *)
+  (forall ls, In ls R -> exists s, In s (walk_node fmod fpow e) /\ forall l, can_have_label s l = false -> has ls l = false) /\
+  (* (2) *)
+  (forall s group_labels vars l, walk_node fmod fpow e = [s] -> In l (template_missing [s] group_labels vars) ->
+                                 forall ls, In ls R -> has ls l = false) /\
+  (* (3) *)
+  (novc e = true ->
+   forall ls, In ls R -> exists s, In s (walk_node fmod fpow e) /\ s_dead s = false /\
+                                   forall l, can_have_label s l = false -> has ls l = false).
+Proof.
+  intros fmod fpow db e R Hwf HS. split; [|split].
+  - intros ls Hin. exact (C04_sound fmod fpow db e R ls Hwf HS Hin).
+  - intros s gl vars l Hw Hrep ls Hin. exact (C04_single_branch fmod fpow db e R s gl vars l Hwf Hw Hrep HS ls Hin).
+  - intros Hn ls Hin. exact (C04_sound_live fmod fpow db e R ls Hwf Hn HS Hin).
+Qed.
+Print Assumptions C04_property.
